@@ -3,5 +3,5 @@ CONSTANTS Requesters = {1,2}
   Pools = {1,2,3}
   ClearLate = FALSE
   MaxPoints = 4
-INVARIANT Performed
+INVARIANT Performed CbBound
 CHECK_DEADLOCK FALSE
